@@ -1,10 +1,11 @@
 SPECIFICATION Spec
 CONSTANTS
-  MaxLen = 4
+  MaxLen = 3
   Alpha = {1, 2, 3}
+  Alg = "patience"
   WithDeadline = FALSE
   WithFailure = FALSE
   Dump = FALSE
-INVARIANTS PrefixValid NeverStuck DLoopBounded FinishedOk FailStops Minimal WorkOk AfterExpiryOk
+INVARIANTS PrefixValid NeverStuck DLoopBounded FinishedOk FailStops Minimal AnchorsOk WorkOk AfterExpiryOk
 PROPERTY Terminates
 CHECK_DEADLOCK FALSE
